@@ -163,7 +163,11 @@ def run(ctx, config):
                 r3.bad("K4:%s:%s-unchecked-length" % (f.name, n), el.where(), f.name, "%s(%s) with a length that was not compared with the available bytes" % (n, show(amt)))
     # evtag_unmarshal_header itself compares the decoded length with the buffer length
     f = P.fn("evtag_unmarshal_header")
-    okh = any(is_e(strip(b.term["cond"]), "bin") and strip(b.term["cond"])[1] == "<" and any(is_e(q, "call") and callee_name(q) == "evbuffer_get_length" for q in walk(b.term["cond"])) for b in f.branch_blocks())
+    def _cmp_avail(b):
+        c, t = negate_truth(b.term["cond"], True)
+        c = strip(c)
+        return is_e(c, "bin") and c[1] in ("<", ">=", ">", "<=") and any(is_e(q, "call") and callee_name(q) == "evbuffer_get_length" for q in walk(c))
+    okh = any(_cmp_avail(b) for b in f.branch_blocks())
     r3.inst("header", {"fn": f.name, "compares_with_available": okh})
     if not okh:
         r3.bad("K4:evtag_unmarshal_header:length-not-compared", "%s:%d" % (f.file, f.line), f.name, "the decoded payload length is not compared with evbuffer_get_length")
